@@ -78,6 +78,9 @@ thread_local! {
 pub fn install_panic_hook() {
     static ONCE: std::sync::Once = std::sync::Once::new();
     ONCE.call_once(|| {
+        if std::env::var("VERIF_LOUD_PANICS").is_ok() {
+            return; // development: keep the default hook (prints message and location)
+        }
         std::panic::set_hook(Box::new(|info| {
             let msg = if let Some(s) = info.payload().downcast_ref::<&str>() {
                 s.to_string()
@@ -91,8 +94,18 @@ pub fn install_panic_hook() {
                 .map(|l| format!(" at {}:{}", l.file(), l.line()))
                 .unwrap_or_default();
             LAST_PANIC.with(|p| *p.borrow_mut() = format!("{}{}", msg, loc));
+            if let Ok(mut g) = GLOBAL_LAST_PANIC.lock() {
+                *g = format!("{}{}", msg, loc);
+            }
         }));
     });
+}
+
+static GLOBAL_LAST_PANIC: std::sync::Mutex<String> = std::sync::Mutex::new(String::new());
+
+/// message of the most recent panic in any thread (for reporting a panic of the harness itself)
+pub fn last_panic() -> String {
+    GLOBAL_LAST_PANIC.lock().map(|g| g.clone()).unwrap_or_default()
 }
 
 pub fn guard<T>(f: impl FnOnce() -> Result<T, DutErr>) -> Result<T, DutErr> {
